@@ -156,7 +156,7 @@ async fn do_inject(s: &Sys, inj: Inject, log: &mut Vec<String>) {
         Inject::DupSchedule(p, illtyped) => { let n = s.handles.len(); let pol = policy(n, p, LEADER.load(Ordering::SeqCst), true, id, if illtyped { "pub fn main(a: u8) -> u8 { a + true }" } else if n == 2 { P2 } else { P3 }, false);
             format!("{:?}", tokio::time::timeout(t, s.handles[p].schedule(pol)).await.map(|r| r.map_err(|e| format!("{e:?}").chars().take(60).collect::<String>()))) }
         Inject::StrayRun(p) => format!("{:?}", tokio::time::timeout(t, s.handles[p].run(RunRequest { computation_id: id })).await.map(|r| r.map_err(|e| format!("{e:?}").chars().take(60).collect::<String>()))),
-        Inject::StrayConsts(p) => format!("{:?}", tokio::time::timeout(t, s.handles[p].consts(ConstsRequest { from: 9, computation_id: id, consts: HashMap::new() })).await.map(|r| r.map_err(|e| format!("{e:?}").chars().take(60).collect::<String>()))),
+        Inject::StrayConsts(p) => format!("{:?}", tokio::time::timeout(t, s.handles[p].consts(ConstsRequest { from: 9, computation_id: id, consts: HashMap::from([("X".to_string(), Literal::from(1u8))]) })).await.map(|r| r.map_err(|e| format!("{e:?}").chars().take(60).collect::<String>()))),
         Inject::StrayValidate(p) => format!("{:?}", tokio::time::timeout(t, s.handles[p].validate(ValidateRequest { computation_id: id, program_hash: "x".into(), leader: 0 })).await.map(|r| r.map_err(|e| format!("{e:?}").chars().take(60).collect::<String>()))),
     };
     log.push(format!("  -> {res}"));
@@ -344,6 +344,21 @@ async fn main() {
                 }
                 // corpus: the leader's validate reaches a follower that has not been scheduled yet (it is held back: ValidateRequested); a SECOND validate
                 // arrives (invalid for that state: answered with an error); then the follower is scheduled. The computation must complete.
+                // corpus: a constants request WITH a payload from an unknown party reaches a follower that has been scheduled but not validated yet (it accepts
+                // no constants in that state: error reply), on a program that uses constants; the run must complete with the right constants
+                if case == 14 || case == 15 {
+                    let (n, leader) = (2usize, case % 2); let fol = 1 - leader; let outs = vec![true; 2];
+                    *HOLD.lock().unwrap() = Some(("validate", leader, fol)); let mut done = false;
+                    let o = scenario(n, leader, &outs, true, &vec![P2C; n], &vec![leader; n], 1, &mut r, None, move |_step, idle| if !done && idle >= 3 { done = true; *HOLD.lock().unwrap() = None; Some(Inject::StrayConsts(fol)) } else { None }).await; execs += 1;
+                    *HOLD.lock().unwrap() = None; correspond(&mut m, &o, None, &mut disagreements, &mut steps);
+                    *dist.entry("inject:StrayConsts-with-payload-while-awaiting-validation".into()).or_default() += 1; distinct.insert(format!("stray-consts-payload {leader}"));
+                    let want = expected_prog(n, P2C); let mut bad = vec![]; let reply = o.log.iter().skip_while(|l| !l.starts_with("inject@")).nth(1).cloned().unwrap_or_default();
+                    if !reply.contains("Ok(Err(") { bad.push(format!("the stray constants request was not answered with an error: {reply}")); }
+                    for p in 0..n { let got: Vec<&String> = o.outputs.iter().filter(|(q, _)| *q == p).map(|(_, s)| s).collect(); if got != vec![&want] { bad.push(format!("party {p} destination got {got:?}, want one {want}")); } }
+                    if o.finished.iter().any(|f| !f) { bad.push(format!("state machines not stopped: {:?}", o.finished)); }
+                    if !bad.is_empty() { failures.push(json!({"witness": "C14:stray-consts-payload", "failure": bad, "case": json!({"n": n, "leader": leader, "follower": fol, "log": o.log})})); }
+                    continue;
+                }
                 // … and the same with every other command that is invalid while a validate is pending before the own schedule (cases 4..9, then one in five seeded cases)
                 if (2..10).contains(&case) || case % 5 == 4 {
                     let (n, leader) = if case < 10 { (2usize, case % 2) } else { (n, leader) }; let fol = (leader + 1 + if case < 10 { 0 } else { r.below(n as u64 - 1) as usize }) % n; let outs = vec![true; n];
@@ -421,6 +436,28 @@ async fn main() {
                     if !o.finished[victim] { bad.push("state machine of the cancelled party still running at the end".to_string()); }
                     if o.permits[victim] != 1 { bad.push(format!("permit not returned: {}", o.permits[victim])); }
                     if !bad.is_empty() { failures.push(json!({"witness": "C15:cancel-after-invalid-command-while-executing", "failure": bad, "case": json!({"n": n, "leader": leader, "victim": victim, "stray": format!("{stray:?}"), "replies": replies, "log": o.log})})); }
+                    continue;
+                }
+                // corpus: cancel in every state a party can WAIT in, made deterministic by holding back the RPC that would move it on:
+                // a follower after its own schedule (awaiting validation), a follower after validation (awaiting run), the leader while its validate is out
+                if (8..14).contains(&case) {
+                    let k = case - 8; let (n, leader) = (2usize, k % 2); let fol = 1 - leader; let outs = vec![true; 2];
+                    let (held, victim, what) = match k / 2 { 0 => (("validate", leader, fol), fol, "follower-awaiting-validation"), 1 => (("run", leader, fol), fol, "follower-awaiting-run"), _ => (("validate", leader, fol), leader, "leader-awaiting-validate-replies") };
+                    *HOLD.lock().unwrap() = Some(held); let mut done = false;
+                    let o = scenario(n, leader, &outs, false, &vec![P2; n], &vec![leader; n], 1, &mut r, None, move |_step, idle| if !done && idle >= 3 { done = true; Some(Inject::Cancel(victim)) } else { None }).await; execs += 1;
+                    *HOLD.lock().unwrap() = None; correspond(&mut m, &o, None, &mut disagreements, &mut steps);
+                    *dist.entry(format!("mode:cancel-{what}")).or_default() += 1; distinct.insert(format!("cancel-wait {what} {leader}"));
+                    let reply = o.log.iter().skip_while(|l| !l.starts_with("inject")).nth(1).cloned().unwrap_or_default(); let ok = reply.contains("Ok(Ok(()))");
+                    let got: Vec<String> = o.outputs.iter().filter(|(q, _)| *q == victim).map(|(_, s)| s.clone()).collect();
+                    let at_return: Vec<String> = reply.split("at-return=").nth(1).map(|x| x.split('|').filter(|y| !y.is_empty()).map(|y| y.to_string()).collect()).unwrap_or_default();
+                    let mut bad = vec![];
+                    // a leader that is still inside its own `schedule` call is cancelled only once that call is over: nothing is claimed while cancel has not returned
+                    if ok { if at_return != vec!["Cancelled".to_string()] { bad.push(format!("when cancel() returned Ok the destination held {at_return:?}, want exactly [Cancelled]")); }
+                        if got != vec!["Cancelled".to_string()] { bad.push(format!("destination got {got:?} in the end (want exactly one `Cancelled`)")); }
+                        if !o.finished[victim] { bad.push("state machine of the cancelled party still running".to_string()); }
+                        if o.permits[victim] != 1 { bad.push(format!("permit not returned: {}", o.permits[victim])); } }
+                    if got.len() > 1 { bad.push(format!("the destination was notified {} times: {got:?}", got.len())); }
+                    if !bad.is_empty() { failures.push(json!({"witness": "C15:cancel-while-waiting", "failure": bad, "case": json!({"n": n, "leader": leader, "victim": victim, "state": what, "reply": reply, "log": o.log})})); }
                     continue;
                 }
                 let at = r.below(6) as usize; let after_idle = r.below(12); let victim = r.below(n as u64) as usize; let mut done = false;
